@@ -18,7 +18,7 @@ PROP = "C17"
 LEVEL = "fault_enumeration"
 RUNS = {"quick": 40, "thorough": 1500}
 TIME_CAP = {"quick": 170, "thorough": 1500}
-RULE = ("per sampled archive (0-8 entries, sub-folder names, sizes 0..2 KiB incl. empty, binary content, properties incl. prefix, optional "
+RULE = ("per sampled archive (0-8 entries, sub-folder names, sizes 0..2 KiB incl. empty and, in about one archive of five, one entry of 4-12 KiB that outgrows the stream buffer behind the reader, binary content, properties incl. prefix, optional "
         "checksum trailer): the intact image, every truncation length, 4 byte values at every header byte, 6 values at every length field, "
         "removed terminators, absent file; each image through one open path. An image is non-trivial when it differs from the intact "
         "archive; distinct by hash of (fault kind, region hit: version/properties/entry table/data/trailer, open path)")
@@ -136,9 +136,17 @@ def gen_archive(rng, big=True):
             nm = "f%d_" % i + nm.replace("\\", "_")
         names.append(nm)
         size = rng.choice([0, 1, 2, 3, 5, 17, 100, 300, 700 if big else 40, 2048 if big else 64])
+        # entries of 4-12 KiB, beyond the stream buffer of the ifstream behind pbofile::reader (8 KiB in libstdc++), so that a
+        # read is served by more than one refill and seeks land outside the buffered window: at most one per archive, in
+        # about one archive of five
+        if big and not any(len(d) > 4000 for _, d in entries) and rng.random() < 0.06:
+            size = rng.choice([4095, 4096, 4097, 6000, 8192, 8193, 12289])
         kind = rng.random()
         if kind < 0.4:
             data = bytes(rng.randrange(256) for _ in range(size))
+        elif size > 4000:
+            # position-dependent text: a window served from the wrong offset cannot look right
+            data = "".join("// entry %s #%d line %d\n" % (nm, i, k) for k in range(size // 16 + 1)).encode()[:size]
         else:
             txt = ("// entry %s #%d\n" % (nm, i)) * (size // 12 + 1)
             data = txt.encode()[:size]
